@@ -17,6 +17,9 @@ EXPLANATION = (
     "Arc<Mutex<RawList>> with a derived Clone, List<T> is a transparent wrapper whose Clone clones the handle, strings wrap an "
     "immutable Arc<str>, and reading a local variable yields Value::Clone (a copy), never a move of the variable."
 )
+EXPLANATION += (
+    " L2 decides direction by parameter position (roles DEST/SRC propagated from the to/from/val/return_ptr fields of the lir instructions through every helper up to VarKind::Return). L4 aggregate literals copy each component when it is evaluated (no lazily lowered component value is read after a later component ran)."
+)
 ASSUMPTIONS = [
     "LayoutBuilder::add implements C-style layout (decided separately by its own three-line body being unchanged is NOT assumed; only the callers' agreement is decided)",
 ]
@@ -209,58 +212,128 @@ def var_kind(ld, e):
     return out
 
 
+DEST_FIELDS = ("to", "return_ptr")
+SRC_FIELDS = ("from", "val", "args")
+
+
+def _roles(F, b, callee_roles):
+    """Role (DEST / SRC) of every parameter position of a lowering helper, derived from where the parameter ends up:
+    the `to`/`return_ptr` vs `from`/`val`/`args` fields of lir::Instruction values it builds, and the roles of the
+    parameters of the helpers it calls. Returns (roles: pos -> set, observations)."""
+    ld = hir.LocalDefs(b.hir)
+    obs = []
+    for st in hir.nodes(b.hir["value"], "struct"):
+        d = hir.res_def({"res": st["path"]}) or ""
+        if "lir::Instruction::" not in d and not d.startswith("lir::Instruction"):
+            continue
+        for f in st["fields"]:
+            role = "DEST" if f[0] in DEST_FIELDS else "SRC" if f[0] in SRC_FIELDS else None
+            if role:
+                obs.append((hir.param_roots(b.hir, ld, f[1]) - {0}, role, st["line"], "%s.%s" % (hir.last(d), f[0])))
+    for c in hir.nodes(b.hir["value"], "mcall"):
+        cr = callee_roles.get(c["m"])
+        if not cr:
+            continue
+        for i, a in enumerate(c["args"]):
+            for role in cr.get(i + 1, ()):
+                obs.append((hir.param_roots(b.hir, ld, a) - {0}, role, c["line"], "%s(arg %d)" % (c["m"], i + 1)))
+    # only parameters that carry an address/variable have a direction (not field lists, types, sizes)
+    carriers = {i for i, p in enumerate(b.hir["params"]) if any(x in (p.get("ty") or "") for x in ("Var", "Location", "Operand"))}
+    roles = {}
+    for ps, role, _l, _w in obs:
+        for q in ps & carriers:
+            roles.setdefault(q, set()).add(role)
+    return roles, obs
+
+
 def rule_l2(F):
-    r = RuleResult("C02.L2", "clone direction: generated clone bodies copy parameter -> return slot; (to, from) passed consistently to the primitive operations", floor=6)
-    for fn in ("generate_clone_body_record", "generate_clone_body_enum"):
-        ps = [p for p in F.paths() if p.endswith("::" + fn)]
+    r = RuleResult("C02.L2", "clone direction: the return slot of a generated clone function only ever reaches destination operands, its parameter only source operands, through every helper (roles by parameter position)", floor=6)
+
+    def body_of(name, where):
+        ps = [p for p in F.paths() if p.endswith("::" + name) and where in p and "{closure" not in p]
         if not ps:
-            r.missing(fn)
+            r.missing(name)
+            return None
+        return F.body(ps[0])
+    known = {}
+    # primitive emitters: roles come from the Instruction fields alone
+    for fn in ("emit_memcpy", "emit_clone", "emit_read", "emit_write"):
+        b = body_of(fn, "lir::lower")
+        if b is None:
             continue
-        b = F.body(ps[0])
-        ld = hir.LocalDefs(b.hir)
-        n = 0
-        for c in hir.nodes(b.hir["value"], "mcall"):
-            if c["m"] != "call_clone_of":
+        roles, obs = _roles(F, b, {})
+        known[fn] = roles
+        r.inst("roles of " + fn, {"fn": fn, "roles_by_position": {str(k): sorted(v) for k, v in roles.items()}})
+    chain = [("call_clone_function", "clones"), ("call_clone_of", "clones"), ("generate_clone_body_record", "clones"), ("generate_clone_body_enum", "clones")]
+    for fn, where in chain:
+        b = body_of(fn, where)
+        if b is None:
+            continue
+        roles, obs = _roles(F, b, known)
+        known[fn] = roles
+        r.inst("roles of " + fn, {"fn": fn, "roles_by_position": {str(k): sorted(v) for k, v in roles.items()},
+                                  "observations": len(obs)})
+        mixed = sorted(k for k, v in roles.items() if len(v) > 1)
+        for k in mixed:
+            wh = sorted({w for ps, role, _l, w in obs if k in ps})
+            r.bad(b.path, "direction of parameter %d" % k, relfile(b.file), b.line,
+                  "parameter %d of %s reaches both destination and source operands (%s): somewhere the clone is written in the wrong direction" % (k, fn, ", ".join(wh)))
+        dests = [k for k, v in roles.items() if v == {"DEST"}]
+        srcs = [k for k, v in roles.items() if v == {"SRC"}]
+        if not mixed and (len(dests) != 1 or len(srcs) != 1):
+            r.bad(b.path, "direction", relfile(b.file), b.line, "%s must have exactly one destination and one source parameter (found dest=%s src=%s)" % (fn, dests, srcs))
+        if fn.startswith("generate_clone_body_"):
+            n = sum(1 for c in hir.nodes(b.hir["value"], "mcall") if c["m"] == "call_clone_of")
+            if n == 0:
+                r.bad(b.path, "call_clone_of", relfile(b.file), b.line, "%s no longer clones its fields" % fn)
+    # the anchor: generate_clone_body hands the VarKind::Return variable to the destination position and the parameter to the source
+    gb = body_of("generate_clone_body", "clones")
+    if gb is not None:
+        ld = hir.LocalDefs(gb.hir)
+
+        def kind_of(e):
+            out = set()
+            e = hir.peel_refs(hir.strip(e))
+            l = hir.res_local(e) if e.get("k") == "path" else None
+            d = ld.get(l) if l is not None else None
+            init = d[1] if d else e
+            for st in hir.nodes(init or {}, "struct"):
+                for f in st["fields"]:
+                    if f[0] == "kind":
+                        out.add(hir.last(str(hir.result_desc(f[1]) or "")).split("(")[0])
+            return out
+        for c in hir.nodes(gb.hir["value"], "mcall"):
+            cr = known.get(c["m"])
+            if c["m"] not in ("generate_clone_body_record", "generate_clone_body_enum") or not cr:
                 continue
-            n += 1
-            to_r = roots(ld, c["args"][0]) - {"self"}
-            fr_r = roots(ld, c["args"][1]) - {"self"}
-            r.inst("%s call_clone_of" % fn, {"to_based_on": sorted(to_r), "from_based_on": sorted(fr_r)})
-            if "return_var" not in to_r or "root_var" in to_r or "root_var" not in fr_r or "return_var" in fr_r:
-                r.bad(b.path, "direction", relfile(b.file), c["line"], "call_clone_of(to <- %s, from <- %s): the clone must go from the parameter (root_var) into the return slot (return_var)" % (sorted(to_r), sorted(fr_r)))
-        if n == 0:
-            r.bad(b.path, "call_clone_of", relfile(b.file), b.line, "%s no longer clones its fields" % fn)
-    # the caller passes (Return var, parameter var) in that order
-    ps = [p for p in F.paths() if p.endswith("::generate_clone")]
-    # named-argument agreement inside call_clone_of / call_clone_function
-    for fn in ("call_clone_of", "call_clone_function"):
-        ps = [p for p in F.paths() if p.endswith("::" + fn) and "clones" in p]
-        if not ps:
-            r.missing(fn)
-            continue
-        b = F.body(ps[0])
-        for c in hir.nodes(b.hir["value"], "mcall"):
-            if c["m"] in ("emit_memcpy", "emit_clone", "emit_write", "emit_read"):
-                a = [names(x) for x in c["args"][:2]]
-                r.inst("%s %s" % (fn, c["m"]), {"args": [sorted(x) for x in a]})
-                if c["m"] in ("emit_memcpy", "emit_clone", "emit_write", "emit_read") and (a[0] != {"to"} or a[1] != {"from"}):
-                    r.bad(b.path, c["m"] + " direction", relfile(b.file), c["line"], "%s(%s, %s): expected (to, from)" % (c["m"], sorted(a[0]), sorted(a[1])))
-            if c["m"] == "call_clone_function":
-                a = [names(x) for x in c["args"][:2]]
-                r.inst("%s -> call_clone_function" % fn, {"args": [sorted(x) for x in a]})
-                if a != [{"from"}, {"to"}]:
-                    r.bad(b.path, "call_clone_function direction", relfile(b.file), c["line"], "call_clone_function(from, to, ..) is called with (%s, %s)" % (sorted(a[0]), sorted(a[1])))
-        for st in hir.nodes(b.hir["value"], "struct"):
+            for i, a in enumerate(c["args"]):
+                role = cr.get(i + 1)
+                if not role or len(role) != 1:
+                    continue
+                ks = kind_of(a)
+                want = "Return" if role == {"DEST"} else "Explicit"
+                r.inst("%s arg %d" % (c["m"], i + 1), {"callee": c["m"], "position": i + 1, "role": sorted(role), "var_kind": sorted(ks)})
+                if ks != {want}:
+                    r.bad(gb.path, "%s arg %d" % (c["m"], i + 1), relfile(gb.file), c["line"],
+                          "the %s position of %s receives a variable of kind %s (expected VarKind::%s): the generated clone copies in the wrong direction" % ("destination" if want == "Return" else "source", c["m"], sorted(ks), want))
+        for st in hir.nodes(gb.hir["value"], "struct"):
             d = hir.res_def({"res": st["path"]}) or ""
-            fd = dict((f[0], f[1]) for f in st["fields"])
-            if d.endswith("Instruction::Assign") and "to" in fd and "val" in fd:
-                r.inst("%s Assign" % fn)
-                if names(fd["to"]) != {"to"} or names(fd["val"]) != {"from"}:
-                    r.bad(b.path, "Assign direction", relfile(b.file), st["line"], "Assign { to <- %s, val <- %s }" % (sorted(names(fd["to"])), sorted(names(fd["val"]))))
-            if d.endswith("Instruction::Call") and "return_ptr" in fd:
-                r.inst("%s generated clone call" % fn)
-                if names(fd["return_ptr"]) != {"to"} or names(fd["args"]) != {"from"}:
-                    r.bad(b.path, "generated clone call direction", relfile(b.file), st["line"], "generated clone is called with args <- %s, return_ptr <- %s" % (sorted(names(fd["args"])), sorted(names(fd["return_ptr"]))))
+            if d.endswith("Instruction::Clone"):
+                fd = dict((f[0], f[1]) for f in st["fields"])
+                kt, kf = kind_of(fd.get("to", {})), kind_of(fd.get("from", {}))
+                r.inst("runtime clone in generate_clone_body", {"to": sorted(kt), "from": sorted(kf)})
+                if kt != {"Return"} or kf != {"Explicit"}:
+                    r.bad(gb.path, "runtime clone direction", relfile(gb.file), st["line"], "Instruction::Clone { to <- %s, from <- %s }" % (sorted(kt), sorted(kf)))
+        for c in hir.nodes(gb.hir["value"], "mcall"):
+            if c["m"] == "emit_memcpy" and known.get("emit_memcpy"):
+                for i, a in enumerate(c["args"]):
+                    role = known["emit_memcpy"].get(i + 1)
+                    if role and len(role) == 1:
+                        ks = kind_of(a)
+                        want = "Return" if role == {"DEST"} else "Explicit"
+                        r.inst("memcpy in generate_clone_body arg %d" % (i + 1))
+                        if ks != {want}:
+                            r.bad(gb.path, "memcpy arg %d" % (i + 1), relfile(gb.file), c["line"], "emit_memcpy receives VarKind %s in its %s position" % (sorted(ks), sorted(role)))
     return r
 
 
@@ -325,6 +398,18 @@ def rule_l3(F):
     return r
 
 
+def rule_l4(F):
+    """A record / enum / list literal captures the value each component had when it was evaluated: the lowered value of a
+    component (a lazy read of a variable) is stored before the next component runs (shared with C08.O4 / C01.T5)."""
+    from . import c08
+    r = c08.rule_o4(F)
+    r.rule = "C02.L4"
+    r.desc = "aggregate literals copy each component when it is evaluated: no lazily lowered component value is read after a later component ran"
+    for v in r.violations:
+        v.rule = "C02.L4"
+    return r
+
+
 def rules(ctx):
     F = ctx["F"]
-    return [rule_l1(F), rule_l2(F), rule_l3(F)]
+    return [rule_l1(F), rule_l2(F), rule_l3(F), rule_l4(F)]
